@@ -91,10 +91,8 @@ class ExprMixin:
             b = getattr(builtins, name)
             if isinstance(b, type) and issubclass(b, BaseException):
                 return ExtClass(b)
-            if isinstance(b, type) and name in (
-                    "int", "float", "str", "bool", "list", "tuple", "dict",
-                    "type", "object", "set"):
-                return BuiltinRef(name)
+            if isinstance(b, type):
+                return ExtClass(b)
             return BuiltinRef(name)
         raise OutOfReach("unresolved name %s in %s" % (name, module))
 
@@ -168,7 +166,7 @@ class ExprMixin:
             return [(st, BuiltinRef("x." + e.id))]
         if e.id in ("old", "entry", "implies", "isint", "fresh", "hashkey",
                     "same_shape", "is_none", "seq_len", "seq_at", "unchanged",
-                    "classname", "ite", "seq_eq"):
+                    "classname", "ite", "seq_eq", "hash_elems", "assume", "use_lemma"):
             return [(st, BuiltinRef("spec." + e.id))]
         return [(st, self.lookup_global(e.id, env.get("__module__")))]
 
@@ -254,6 +252,9 @@ class ExprMixin:
                 return r
             raise OutOfReach("class attribute %s.%s" % (o.info.name, name))
         if isinstance(o, ModuleRef):
+            key = (getattr(o.real, "__name__", "?"), name)
+            if key in self.sym_modattrs:
+                return [(st, self.sym_modattrs[key])]
             if o.name is not None:
                 return [(st, self.lookup_global(name, o.name))]
             return [(st, self.wrap_real(getattr(o.real, name)))] \
